@@ -13,6 +13,16 @@ def _run(a, b, boundary, start, end, level):
         bad.append("announces %d points, returns %d weights" % (g.num_points, len(g.weights)))
     if len(g.coords) and not (min(g.coords) >= start - 1e-12 * max(1, abs(start)) and max(g.coords) <= end + 1e-12 * max(1, abs(end))):
         bad.append("points outside [start,end]")
+    # composite trapezoidal weights of the returned points (independent reference): h/2 at the two ends of the box, h elsewhere
+    n = 2 ** level + 1
+    if len(g.coords) == len(g.weights) and not (not boundary and g.num_points == 1) and n >= 2:
+        h = (end - start) / (n - 1)
+        for x, w in zip(g.coords, g.weights):
+            k = round((x - start) / h)
+            ref = h / 2 if k in (0, n - 1) else h
+            if abs(w - ref) > 1e-9 * abs(h):
+                bad.append("point %r (number %d of %d in the box) has weight %r, composite trapezoidal weight is %r" % (float(x), k, n, float(w), ref))
+                break
     return bad
 
 
